@@ -107,7 +107,23 @@ pub(crate) mod verif_support {
             Value::Bool(b) => Value::Bool(*b),
             Value::Number(n) => Value::Number(n.clone()),
             Value::String(s) => Value::String(s.clone()),
-            Value::Array(_) => Value::Array(Vec::new()),
+            Value::Array(a) => {
+                // one level: elements that are scalars/strings are cloned, nested containers become empty
+                let mut out: Vec<Value> = Vec::with_capacity(4);
+                let mut i = 0;
+                while i < a.len() {
+                    out.push(match &a[i] {
+                        Value::Null => Value::Null,
+                        Value::Bool(b) => Value::Bool(*b),
+                        Value::Number(n) => Value::Number(n.clone()),
+                        Value::String(s) => Value::String(s.clone()),
+                        Value::Array(_) => Value::Array(Vec::new()),
+                        Value::Object(_) => Value::Object(Map::new()),
+                    });
+                    i += 1;
+                }
+                Value::Array(out)
+            }
             Value::Object(_) => Value::Object(Map::new()),
         }
     }
@@ -175,6 +191,30 @@ pub(crate) mod verif_support {
         pub static mut LOG_DATA: [*const Value; 16] = [std::ptr::null(); 16];
         pub static mut LOG_N: usize = 0;
         pub static mut FOREIGN_PARSE: bool = false;
+        /// a node evaluated once per element (predicate / mapped expression): outcome per call
+        pub static mut MULTI_NODE: usize = usize::MAX;
+        pub static mut MULTI_CLASS: [u8; 6] = [0; 6];
+        pub static mut MULTI_VAL: [*const Value; 6] = [std::ptr::null(); 6];
+        pub static mut MULTI_CALLS: usize = 0;
+        /// fingerprint of the `data` argument of every logged evaluation: u64 payload if it is a number
+        /// (u64::MAX - 1 for null, u64::MAX - 2 for anything else)
+        pub static mut LOG_DATA_FP: [u64; 16] = [0; 16];
+        pub fn fingerprint(v: &Value) -> u64 {
+            match v {
+                Value::Number(n) => n.as_u64().unwrap_or(u64::MAX - 3),
+                Value::Null => u64::MAX - 1,
+                _ => u64::MAX - 2,
+            }
+        }
+        pub fn set_multi(node: usize) {
+            unsafe { MULTI_NODE = node };
+        }
+        pub fn set_multi_outcome(call: usize, class: u8, out: *const Value) {
+            unsafe {
+                MULTI_CLASS[call] = class;
+                MULTI_VAL[call] = out;
+            }
+        }
 
         pub fn register(v: &Value, class: u8, out: *const Value) -> usize {
             unsafe {
